@@ -231,9 +231,47 @@ def run_traces(ctx: Ctx, flavour: str):
                                + ("" if flavour == "commands" else "; every failure kind after each of the first wire steps, registered or not"))
     metas = [[s[0], s[1], s[2], [list(x) for x in s[3]]] for s in scheds]
     ctx.add_sample({"stack_case": metas[1], "trace": traces[1][:10]})
-    ctx.validate_traces("Trace_Stack", traces, constants=consts(), invariants=("SilentAfterRequest", "StoppedAfterRequest"),
-                        metas=metas, label=f"composed stack ({flavour})", sig=sig)
+    res = ctx.validate_traces("Trace_Stack", traces, constants=consts(), invariants=("SilentAfterRequest", "StoppedAfterRequest"),
+                              metas=metas, label=f"composed stack ({flavour})", sig=sig)
+    good = [traces[v.index] for v in res.verdicts if v.accepted]
+    if good:
+        binding_selftest(ctx, good)
     return len(traces)
+
+
+def binding_selftest(ctx: Ctx, traces):
+    """The trace specification must bind: corrupting one recorded field of an accepted run, or removing one observed output,
+    must make TLC reject it (machinery check, never a verdict on the code)."""
+    import copy
+    from . import tlc as T
+    from . import trace as TR
+    muts = []
+    for tr in traces:
+        if len(muts) >= 8:
+            break
+        idx = [i for i, e in enumerate(tr) if any(o["o"] == "write" and o["f"]["type"] == "DATA" for o in e["out"])]
+        cd = [i for i, e in enumerate(tr) if any(o["o"] == "cdone" and o["res"] == "ok" for o in e["out"])]
+        if len(idx) < 2 or not cd:
+            continue
+        a = copy.deepcopy(tr)                     # a request leaves with another sequence number
+        o = next(o for o in a[idx[1]]["out"] if o["o"] == "write" and o["f"]["type"] == "DATA")
+        o["f"]["pl"]["seq"] = (o["f"]["pl"]["seq"] + 1) % 256
+        b = copy.deepcopy(tr)                     # a call returns another value than its response carried
+        o = next(o for o in b[cd[0]]["out"] if o["o"] == "cdone" and o["res"] == "ok")
+        o["val"] = (o["val"] + 1) % 1000
+        c = copy.deepcopy(tr)                     # an acknowledgement / frame the model demands was never written
+        c[idx[1]]["out"] = [o for o in c[idx[1]]["out"] if o["o"] != "write"]
+        d = copy.deepcopy(tr)                     # a frame number is re-used
+        o = next(o for o in d[idx[1]]["out"] if o["o"] == "write" and o["f"]["type"] == "DATA")
+        o["f"]["frm"] = (o["f"]["frm"] + 7) % 8
+        muts += [a, b, c, d]
+    if not muts:
+        raise T.MachineryError("binding self-test: no suitable accepted run")
+    r = TR.validate("Trace_Stack", muts, workdir=ctx.workdir, constants=consts(), invariants=("SilentAfterRequest", "StoppedAfterRequest"))
+    ok = [v for v in r.verdicts if v.accepted]
+    if ok:
+        raise T.MachineryError(f"binding self-test: {len(ok)} of {len(muts)} corrupted runs were accepted by Trace_Stack")
+    ctx.notes["stack_binding_selftest"] = f"{len(muts)} corrupted runs (sequence number, returned value, missing write, frame number), all rejected"
 
 
 def replay(ctx: Ctx, data):
